@@ -21,6 +21,7 @@ type RunOpts struct {
 	Replay   string
 	OnlyRule string
 	Verbose  bool
+	Mutant   string
 }
 
 // ruleFn runs the rules of one property on one loaded configuration.
@@ -39,6 +40,7 @@ func main() {
 	flag.StringVar(&o.Replay, "replay", "", "replay a violation record")
 	flag.StringVar(&o.OnlyRule, "rule", "", "only print obligations of this rule (debug)")
 	flag.BoolVar(&o.Verbose, "v", false, "print all obligations")
+	flag.StringVar(&o.Mutant, "mutant", "", "(self-validation) analyse one mutant from mutants.json via overlay and print its failing obligations")
 	flag.Parse()
 	if o.Tier == "" {
 		o.Tier = os.Getenv("VERIF_TIER")
@@ -56,6 +58,9 @@ func main() {
 		} else {
 			o.VerifDir = "/verif"
 		}
+	}
+	if o.Mutant != "" {
+		os.Exit(runMutantChild(o, o.Mutant))
 	}
 	if o.Replay != "" {
 		b, err := os.ReadFile(o.Replay)
